@@ -215,8 +215,9 @@ func (d *rdb) withFlushCrashPoints(kind string, f func()) {
 			continue
 		}
 		seen[im.j] = true
-		d.cfg.tr.Op("fimage %d %s alloc=%d order=%s", im.j, kind, alloc, strings.Join(order, ","))
-		d.guard(func() string { d.inspectImage(im.dir, nil); return "" })
+		probe := d.flushProbe(im.j)
+		d.cfg.tr.Op("fimage %d %s alloc=%d order=%s%s", im.j, kind, alloc, strings.Join(order, ","), probeField(probe))
+		d.guard(func() string { d.inspectImage(im.dir, probe); return "" })
 		d.cfg.st.Inc("flush-crash-images")
 		d.cfg.st.Inc(fmt.Sprintf("flush-crash-images.%s.alloc%d", kind, alloc))
 	}
@@ -388,12 +389,16 @@ func (d *rdb) recoverDB() string {
 	return res
 }
 
-func runInitStorage() string { return runChild(10*time.Second, "initstorage") }
+func runInitStorage() string { return runChild(5*time.Second, "initstorage") }
 
-func runChild(limit time.Duration, args ...string) string {
+func runChild(limit time.Duration, args ...string) string { return runChildIn("", limit, args...) }
+
+func runChildIn(dir string, limit time.Duration, args ...string) string {
 	ctx, cancel := context.WithTimeout(context.Background(), limit)
 	defer cancel()
-	cmd := exec.CommandContext(ctx, os.Args[0], args...)
+	exe, _ := filepath.Abs(os.Args[0])
+	cmd := exec.CommandContext(ctx, exe, args...)
+	cmd.Dir = dir
 	var stderr bytes.Buffer
 	cmd.Stderr = &stderr
 	err := cmd.Run()
@@ -870,7 +875,7 @@ func runDB(cfg *config) {
 			runCacheSizes(cfg, id, r.Fork(), cfg.tier == "thorough" && i%4 == 0)
 		}
 	case "c04":
-		n := 8 * cfg.scale
+		n := 5 * cfg.scale
 		for i := 0; i < n; i++ {
 			id++
 			runFlushCrashes(cfg, id, r.Fork())
@@ -1000,7 +1005,24 @@ func runFailures(cfg *config, id int, r *hx.Rng) {
 		n := r.Range(1, 11)
 		k := r.Intn(n) // position of the invalid row
 		good := func(i int) []interface{} { return []interface{}{int64(100*s + i), "ok", "row", false} }
-		switch r.Intn(9) {
+		switch r.Intn(10) {
+		case 9: // DELETE / UPDATE whose WHERE cannot be evaluated on the k-th row (NULL meets a comparison)
+			d.stmt("DELETE FROM t1")
+			var rs [][]interface{}
+			for i := 0; i < n; i++ {
+				row := good(i)
+				if i == k {
+					row[0] = nil
+				}
+				rs = append(rs, row)
+			}
+			d.insertv("t1", nil, rs)
+			d.selectEvery()
+			if r.Bool() {
+				d.stmt("DELETE FROM t1 WHERE a >= 0")
+			} else {
+				d.stmt("UPDATE t1 SET c = 'changed' WHERE a >= 0")
+			}
 		case 8: // CREATE TABLE whose catalog rows do not fit a page cell: table name or k-th column name too long
 			name := fmt.Sprintf("long%d", s)
 			if r.Bool() {
